@@ -91,10 +91,11 @@ static void MIR_NO_RETURN prog_err_func (MIR_error_type_t t, const char *fmt, ..
 /* ---- where did it die?  The generator's level-0 debug stream brackets every whole-function
    generation ("Code generation of function F:" ... "Code generation for F: ..."); a death between
    the two is the generator's own (C01's subject), anything else happened while running code. ---- */
-static char gen_trace[256];
+static char gen_trace[256], gen_pass[64] = "start";
 static volatile int gen_depth;
 static ssize_t gen_trace_write (void *c, const char *buf, size_t n) {
-  static const char b[] = "Code generation of function ", e[] = "  Code generation for ";
+  static const char b[] = "Code generation of function ", e[] = "  Code generation for ",
+                    h[] = "+++++++++++++";
   if (n >= sizeof (b) - 1 && memcmp (buf, b, sizeof (b) - 1) == 0) {
     size_t k = n - (sizeof (b) - 1);
     if (k > sizeof (gen_trace) - 1) k = sizeof (gen_trace) - 1;
@@ -102,15 +103,67 @@ static ssize_t gen_trace_write (void *c, const char *buf, size_t n) {
     gen_trace[k] = 0;
     for (char *q = gen_trace; *q; q++)
       if (*q == ':' || *q == '\n') *q = 0;
+    strcpy (gen_pass, "start");
     gen_depth = 1;
-  } else if (n >= sizeof (e) - 1 && memcmp (buf, e, sizeof (e) - 1) == 0)
+  } else if (n >= sizeof (e) - 1 && memcmp (buf, e, sizeof (e) - 1) == 0) {
     gen_depth = 0;
+  } else if (n > sizeof (h) - 1 && memcmp (buf, h, sizeof (h) - 1) == 0) { /* a pass header */
+    size_t k = 0;
+    for (size_t i = sizeof (h) - 1; i < n && k < sizeof (gen_pass) - 1; i++) {
+      char ch = buf[i];
+      if (ch == ':' || ch == '\n') break;
+      gen_pass[k++] = (ch >= 'a' && ch <= 'z') || (ch >= 'A' && ch <= 'Z') || (ch >= '0' && ch <= '9') ? ch : '-';
+    }
+    gen_pass[k] = 0;
+  }
   return (ssize_t) n;
 }
+#include <execinfo.h>
+/* name of the innermost function of the library on the stack (we are dying anyway: popen is fine) */
+static void death_site (char *site, size_t max) {
+  void *bt[40];
+  int n = backtrace (bt, 40);
+  char **syms = backtrace_symbols (bt, n);
+  char exe[512], cmd[4096];
+  ssize_t el = readlink ("/proc/self/exe", exe, sizeof (exe) - 1);
+  snprintf (site, max, "unknown");
+  if (syms == NULL || el <= 0) return;
+  exe[el] = 0;
+  int len = snprintf (cmd, sizeof (cmd), "addr2line -f -s -e %s", exe);
+  int cnt = 0;
+  for (int i = 0; i < n && len < (int) sizeof (cmd) - 40; i++) {
+    char *p = strstr (syms[i], "(+0x");
+    if (p == NULL || strncmp (syms[i], exe, el) != 0) continue;
+    char *q = strchr (p, ')');
+    if (q == NULL) continue;
+    /* return addresses point after the call: step back one byte except for the faulting frame */
+    unsigned long off = strtoul (p + 2, NULL, 16);
+    len += snprintf (cmd + len, sizeof (cmd) - len, " 0x%lx", off > 0 ? off - 1 : off);
+    cnt++;
+  }
+  if (cnt == 0) return;
+  snprintf (cmd + len, sizeof (cmd) - len, " 2>/dev/null");
+  FILE *f = popen (cmd, "r");
+  if (f == NULL) return;
+  char fn[256], loc[256];
+  while (fgets (fn, sizeof (fn), f) != NULL && fgets (loc, sizeof (loc), f) != NULL) {
+    fn[strcspn (fn, "\n")] = 0;
+    if (strcmp (fn, "death_site") == 0 || strcmp (fn, "die_report") == 0 || strcmp (fn, "on_signal") == 0
+        || strcmp (fn, "on_exit_hook") == 0 || strcmp (fn, "??") == 0)
+      continue;
+    snprintf (site, max, "%s", fn);
+    break;
+  }
+  pclose (f);
+}
 static void die_report (const char *how, int n) {
-  char msg[400];
-  int len = gen_depth ? snprintf (msg, sizeof (msg), " CRASH:gen:%s:%s%d\n", gen_trace, how, n)
-                      : snprintf (msg, sizeof (msg), " CRASH:run:%s%d\n", how, n);
+  char msg[600], site[128];
+  int len;
+  if (gen_depth) {
+    death_site (site, sizeof (site));
+    len = snprintf (msg, sizeof (msg), " CRASH:gen:%s:%s%d:%s\n", gen_trace, how, n, site);
+  } else
+    len = snprintf (msg, sizeof (msg), " CRASH:run:%s%d\n", how, n);
   fflush (stdout);
   if (write (1, msg, len) < 0) {}
 }
